@@ -38,8 +38,8 @@ theorem effectSum_eq_keys (F : Graph → HKey → Nat) (ns : List Notifier) :
     have : effectSum F (nt :: ns) = effect F nt + effectSum F ns := by simp [effectSum]
     rw [this, ih]
     cases nt with
-    | user k rc => simp [mtKeys, effect]
-    | maint mk g k => cases mk <;> simp [mtKeys, effect, keyF]
+    | user k rc => simp [mtKeys, effect, List.filterMap_cons]
+    | maint mk g k => cases mk <;> simp [mtKeys, effect, keyF, List.filterMap_cons]
 
 theorem blocks_eq_keys (h' : Heap) (val : Val) (o' : Observable) (q : NKey) (k : HKey) (vs : List Graph) :
     blocks h' k val vs o' q = ((vs.map (fun c => NKey.maint .trait c k)).map (keyF (blockAt h' val o' q))).sum := by
